@@ -113,8 +113,10 @@ theorem treeInv_runCmd {sv : Server} (sid : Nat) (c : Cmd) (h : TreeInv sv) : Tr
   | paramSelf => exact h
   | paramMax n => exact h
   | paramRoute keys => exact h
+  | paramRouteF keys fs => exact h
   | unparamMax => exact h
   | unparamRoute => exact h
+  | unparamRouteF => exact h
   | getparams =>
     simp only [runCmd]
     split
